@@ -112,10 +112,24 @@ def degenerate (m : Mesh) (rep : Array Nat) (f : Nat × Nat × Nat) : Bool :=
 
 /-- Every vertex normal lies strictly on the side of the geometric normal of every
 non-degenerate face that uses it. Returns the first offending (face, corner). -/
-def wrongSide (m : Mesh) (rep : Array Nat) : Option (Nat × Nat) := Id.run do
+def wrongSide (m : Mesh) (rep : Array Nat) (k : Nat := 1) : Option (Nat × Nat) := Id.run do
   for k in [0:m.faces.size] do
     let f := m.faces[k]!
-    if !degenerate m rep f then
+    -- a sliver whose geometric normal is below the f32 noise of its own corner coordinates has no meaningful
+    -- normal direction (the corners are binary32 values: each coordinate is off by up to 2^-24 of its size, so
+    -- the cross product of two edges is uncertain by about ε·|p|·|e|): such faces are degenerate FOR THIS TEST
+    -- only — `|cross| ≤ k·2·10⁻⁶·|p|·max(|e1|, |e2|)` — they still count as faces in the edge accounting. `k` is
+    -- the number of roundings that ACCUMULATE in a corner (the lathe steps round the axis incrementally: the
+    -- caller passes sectors/8), 1 for directly computed vertices
+    let a := m.verts[f.1]!.p
+    let b := m.verts[f.2.1]!.p
+    let c' := m.verts[f.2.2]!.p
+    let e1 := sub3 b a
+    let e2 := sub3 c' a
+    let cr := cross3 e1 e2
+    let p2 := max (dot3 a a) (max (dot3 b b) (dot3 c' c'))
+    let noisy := 250000000000 * dot3 cr cr ≤ (k * k : Nat) * (p2 * max (dot3 e1 e1) (dot3 e2 e2))
+    if !degenerate m rep f && !noisy then
       let c := faceNormal m f
       for v in [f.1, f.2.1, f.2.2] do
         if dot3 m.verts[v]!.n c ≤ 0 then return some (k, v)
